@@ -54,6 +54,15 @@ RECURSIVE SeqsUpTo(_, _)
 SeqsUpTo(A, k) == IF k = 0 THEN {<<>>} ELSE LET P == SeqsUpTo(A, k - 1) IN P \cup {Append(p, a) : p \in {q \in P : Len(q) = k - 1}, a \in A}
 AllPaths == {<<"add_path", p, o, d>> : p \in SeqsUpTo(Objs, MaxPath), o \in {"", "o1"}, d \in {"", "d1"}}
 
+\* profile "pathread": well-formed paths node (link node)* of up to MaxPath objects (they may revisit nodes, edges and
+\* links), single links, and reads of the link lookups in between
+RECURSIVE WFPaths(_)
+WFPaths(k) == IF k <= 1 THEN {<<n>> : n \in NodeIds}
+              ELSE LET P == WFPaths(k - 2) IN P \cup {p \o <<l, n>> : p \in {q \in P : Len(q) = k - 2}, l \in LinkIds, n \in NodeIds}
+PathReadCalls(dummy) == {<<"add_path", p, "", "">> : p \in {q \in WFPaths(MaxPath) : Len(q) >= 3}}
+                        \cup {<<"add_link", u, l, v>> : u \in NodeIds, l \in LinkIds, v \in NodeIds}
+                        \cup {<<"read", "nodes_by_link">>, <<"read", "links_by_name">>}
+
 \* profile "near": start from every valid network shape enumerated by DynCases (read back from SHAPES_FILE), built
 \* through the API, and explore every single further call: near-valid graphs, where ONE condition decides the verdict
 Shapes == IF Profile = "near" THEN ndJsonDeserialize(IOEnv.SHAPES_FILE) ELSE <<>>
@@ -79,6 +88,7 @@ Calls == CASE Profile = "cache" -> SingleMut \cup ReadCalls \cup ViewCalls \cup 
                                  \cup {<<"add_path", <<u, l, v>>, o, d>> : u \in NodeIds, l \in LinkIds, v \in NodeIds, o \in {"", "o1"}, d \in {"", "d1"}}
                                  \cup {<<"add_links", <<<<u, "l1", v>>, <<v, "l2", u>>>>>> : u \in NodeIds, v \in NodeIds}
                                  \cup {<<"add_nodes", <<u, v>>>> : u \in NodeIds, v \in NodeIds}
+           [] Profile = "pathread" -> PathReadCalls(0)
            [] Profile = "valid" -> SingleMut \cup ValidPaths
            [] Profile = "path"  -> AllPaths \cup {<<"add_link", "n1", "l1", "n2">>, <<"add_origin", "o1", "n1">>, <<"add_node", "n2">>}
 
